@@ -223,19 +223,28 @@ def o_barrier(rec, table=None):
         if not complete or not b.nl:
             continue
         w_ub, w_eq = [], []
+        zone = False
         for nc, v in vals:
             lo = np.broadcast_to(np.asarray(nc["lb"], float), v.shape)
             hi = np.broadcast_to(np.asarray(nc["ub"], float), v.shape)
-            tol = truth.eq_tol(lo, hi)
+            with np.errstate(invalid="ignore"):
+                gap = np.abs(hi - lo)
+            if np.any(np.isfinite(gap) & (gap > 0)
+                      & (gap <= truth.CUSHION * truth.eq_tol(lo, hi))):
+                # equal to rounding but not exactly: either reading accepted
+                zone = True
             for i in range(v.size):
                 if np.isfinite(lo[i]) and np.isfinite(hi[i]) and \
-                        abs(hi[i] - lo[i]) <= tol[i]:
+                        hi[i] == lo[i]:
                     w_eq.append(v[i] - 0.5 * (lo[i] + hi[i]))
                     continue
                 if np.isfinite(lo[i]):
                     w_ub.append(lo[i] - v[i])
                 if np.isfinite(hi[i]):
                     w_ub.append(v[i] - hi[i])
+        if zone:
+            info["zone_skipped"] = info.get("zone_skipped", 0) + 1
+            continue
         for name, got, want in (("inequality", cub, w_ub),
                                 ("equality", ceq, w_eq)):
             want = np.sort(barrier_clip(want)) if len(want) else np.zeros(0)
